@@ -75,6 +75,10 @@ FAMS = {
     "mono1":   ("a0*x", 1, [(0, 1)]),
     "mono4":   ("a0*pow(x,4)", 1, [(0, 4)]),
     "invx":    ("a0*inv(x)", 1, [(0, -1)]),
+    # an x-free factor times a part whose reciprocal square root sympy cannot integrate (elliptic): with try_integration=True the
+    # analytic attempt fails or times out and the numeric path must be used on the WHOLE function
+    "fcubic":  ("a0*(cube(x)+1)", 1, [(0, 3), (0, 0)]),
+    "fquart":  ("a0*(pow(x,4)+x)", 1, [(0, 4), (0, 1)]),
 }
 INTEGRABLE = ["const", "sq", "invsq", "cube", "mono1", "mono4", "invx"]   # sympy finds the antiderivative (monomials)
 # H^2 with a parameter in the exponent: sympy's antiderivative is a Piecewise with a Ne(...) guard, and the guarded (special)
@@ -765,6 +769,12 @@ def search(ctx):
         zs = float_sample(rng, 5, "dups-unsorted")
         jobs.append({"tag": "integrated/%s%r" % (fam, pr), "fam": fam, "zs": zs, "params": pr, "n": 5, "shape": "dups-unsorted", "integrated": True,
                      "delta": hx(delta), "min_nz": min_nz, "calls": [predcall(zs, fam, pr, True, tmax=20)]})
+    # the analytic attempt fails (unevaluated Integral / time limit): the prediction must still be that of the function given
+    for fam in ["fcubic", "fquart"]:
+        zs = float_sample(rng, 5, "dups-unsorted")
+        pr = [rng.randint(3, 40) / 4.0]
+        jobs.append({"tag": "integration-fails/%s" % fam, "fam": fam, "zs": zs, "params": pr, "n": 5, "shape": "dups-unsorted",
+                     "delta": hx(delta), "min_nz": min_nz, "calls": [predcall(zs, fam, pr, True, tmax=3)]})
     try:
         results = run_impl(ctx, jobs)
     except RuntimeError as e:
